@@ -33,7 +33,13 @@ use std::sync::{Arc, Mutex};
 #[cfg(not(feature = "verif-hooks"))]
 use std::time::Instant;
 use std::time::{Duration, SystemTime};
-use tokio::sync::{RwLock, Semaphore, broadcast, oneshot};
+#[cfg(not(feature = "verif-hooks"))]
+use tokio::sync::RwLock;
+use tokio::sync::{Semaphore, broadcast, oneshot};
+// With `verif-hooks` every lock acquisition of the manager is a seeded yield point,
+// so the simulator can interleave tasks between two lock sections.
+#[cfg(feature = "verif-hooks")]
+use crate::verif_hooks::YieldingRwLock as RwLock;
 // Under the simulation seam the sweep of orphaned operations follows simulated time.
 #[cfg(feature = "verif-hooks")]
 use tokio::time::Instant;
